@@ -50,7 +50,7 @@ def run(tier, seed):
     ]
     res.assumptions = ["extensions without lowering functions (the statement's domain)", "OpDefSig class invariant (a scheme or the binary flag) assumed in rt_OpDef - its constructor raises otherwise",
                        "the whole-extension loops (Extension._to_serial / serial Extension.deserialize over the three dictionaries) are not under contract: bounded + ground only"]
-    standard_flow(res, FILES, TARGETS, None, bounded_modules=[("bounded.c10", 300, 1800)], more=[(CODEC_FILES, CODEC_LEMMAS)])
+    standard_flow(res, FILES, TARGETS, None, bounded_modules=[("bounded.c10", 900, 1800)], more=[(CODEC_FILES, CODEC_LEMMAS)])
     ground(res)
     res.level = "other"
     res.explanation = ("Proved from the real source: with_runtime_reqs keeps the rows, keeps every old requirement, adds the new ones, without duplicates (a genuine ordering defect here was repaired); "
